@@ -94,7 +94,7 @@ func rewinder(fn *ssa.Function) bool {
 
 func runC06(c *Ctx) {
 	p := c.Progs["mod"]
-	c.Rule("C06.Y", "compatibility with the party that is not changed with this code: only list/fetch/post exchanges; a cut-short upload is answered 5xx; the proxy timeout is always applied", 5)
+	c.Rule("C06.Y", "compatibility with the party that is not changed with this code: only list/fetch/post exchanges; a cut-short upload is answered 5xx; the proxy timeout is always applied", 4)
 	ruleAgentProxyExchanges(c, p, "C06.Y")
 	ruleUploadReadFailureIs5xx(c, p, "C06.Y")
 	ruleProxyTimeoutAlwaysApplied(c, p, "C06.Y")
